@@ -1,1 +1,528 @@
-/- C14 — property theorems (to be written) -/
+/-
+  C14 — rank ids, shapes, defaults, formats and active ranges follow the data.
+  Property theorems only; helper lemmas live in FtProofs/Lemmas/MetaLemmas.lean.
+-/
+import FtProofs.Lemmas.MetaLemmas
+set_option linter.unusedSectionVars false
+set_option linter.unusedSimpArgs false
+set_option linter.unusedVariables false
+namespace Ft
+open Ft.C14
+
+/-- **split**: the carry-over block of `_splitGeneric` (formats looked up by rank id) yields the
+    documented Meta: X → X.1, X.0; the authoritative shape with X's entry duplicated; default and
+    mutability kept; both halves inherit X's format, every other rank keeps its own. -/
+theorem split_meta (m : Meta) (k : Nat) (s : String) (hwf : m.wfB = true)
+    (hk : m.ids[k]? = some (.one s))
+    (h1 : RId.one (s ++ ".1") ∉ m.ids) (h0 : RId.one (s ++ ".0") ∉ m.ids) :
+    mSplit k m = sSplit k m := by
+  obtain ⟨hl, hs, hn⟩ := (metaWfB_iff m).1 hwf
+  unfold mSplit sSplit
+  rw [hk]
+  simp only [Option.some.injEq, Meta.mk.injEq, true_and, and_true]
+  have hx : m.fmts[k]? = some (m.getFmt (.one s)) := lookD_getElem? Fmt.C m.ids m.fmts hn hl k _ hk
+  unfold dupAt
+  rw [take_succ_of_getElem? _ _ _ hx, drop_of_getElem? _ _ _ hx]
+  unfold splitIds
+  simp only [List.map_append, List.map_cons, List.map_nil, if_true]
+  have hne : RId.one (s ++ ".0") ≠ RId.one (s ++ ".1") := by
+    intro h; injection h with h; simp at h
+  simp only [hne, if_false, if_true]
+  have hA : ∀ r ∈ m.ids, (if r = RId.one (s ++ ".1") then m.getFmt (.one s)
+      else if r = RId.one (s ++ ".0") then m.getFmt (.one s) else m.getFmt r) = m.getFmt r := by
+    intro r hr
+    have a1 : r ≠ RId.one (s ++ ".1") := fun e => h1 (e ▸ hr)
+    have a0 : r ≠ RId.one (s ++ ".0") := fun e => h0 (e ▸ hr)
+    simp [a1, a0]
+  rw [List.map_congr_left (fun r hr => hA r (List.mem_of_mem_take hr)),
+      List.map_congr_left (fun r hr => hA r (List.mem_of_mem_drop hr))]
+  have t := map_take_lookD Fmt.C m.ids m.fmts hn hl k
+  have d := map_drop_lookD Fmt.C m.ids m.fmts hn hl (k + 1)
+  unfold Meta.getFmt
+  rw [t, d]
+  simp
+
+example : mSplit 0 ⟨[.one "M", .one "K"], some [.n 4, .n 5], 7, [.U, .C], true⟩ =
+    some ⟨[.one "M.1", .one "M.0", .one "K"], some [.n 4, .n 4, .n 5], 7, [.U, .U, .C], true⟩ := by decide
+
+/-- **swizzle**, what holds today: the identity order (a deep copy) and, for a real re-ordering,
+    tensors whose formats are all "C" and that are not mutable.  Rank ids, authoritative shape
+    (the `swiz_len` prefix re-arranged, the common suffix kept) and default are always right. -/
+theorem swizzle_meta_partial (m : Meta) (order : List RId) (hwf : m.wfB = true)
+    (hlen : order.length = m.ids.length)
+    (h : order = m.ids ∨ ((∀ f ∈ m.fmts, f = Fmt.C) ∧ m.mutable = false)) :
+    mSwizzle order m = sSwizzle order m := by
+  obtain ⟨hl, hs, hn⟩ := (metaWfB_iff m).1 hwf
+  unfold mSwizzle sSwizzle
+  by_cases he : m.ids = order
+  · subst he
+    simp only [if_true]
+    cases m with
+    | mk ids shape dflt fmts mutable =>
+      simp only [Meta.mk.injEq, true_and, and_true]
+      constructor
+      · cases shape with
+        | none => rfl
+        | some sh => simp only [Option.map_some, Option.some.injEq]
+                     exact (map_lookD_self default ids sh hn (hs sh rfl)).symm
+      · exact (map_lookD_self Fmt.C ids fmts hn hl).symm
+  · rcases h with h | ⟨hC, hm⟩
+    · exact absurd h.symm he
+    · simp only [he, if_false, Meta.mk.injEq, true_and]
+      refine ⟨?_, ?_, hm.symm⟩
+      · cases hsh : m.shape with
+        | none => rfl
+        | some sh =>
+          simp only [Option.map_some, Option.some.injEq]
+          have hd := swizLen_drop m.ids order hlen
+          have h2 := map_drop_lookD (default : Sx) m.ids sh hn (hs sh hsh) (swizLen m.ids order)
+          rw [← h2, ← hd, ← List.map_append, List.take_append_drop]
+      · apply List.map_congr_left
+        intro r _
+        exact (lookD_all Fmt.C m.ids m.fmts r hC).symm
+
+example : mSwizzle [.one "K", .one "M"] ⟨[.one "M", .one "K"], some [.n 4, .n 5], 7, [.C, .C], false⟩ =
+    ⟨[.one "K", .one "M"], some [.n 5, .n 4], 7, [.C, .C], false⟩ := by decide
+
+/-- … and the full statement is false for today's code: a re-ordering forgets formats and the
+    mutability hint (`Tensor.fromFiber` builds fresh ranks, tensor.py:1474-1488) — DESIGN §7 #10. -/
+theorem swizzle_meta_defect :
+    ∃ (m : Meta) (order : List RId), m.wfB = true ∧ order.length = m.ids.length ∧
+      (mSwizzle order m).ids = (sSwizzle order m).ids ∧ (mSwizzle order m).shape = (sSwizzle order m).shape ∧
+      (mSwizzle order m).fmts ≠ (sSwizzle order m).fmts ∧ (mSwizzle order m).mutable ≠ (sSwizzle order m).mutable :=
+  ⟨⟨[.one "M", .one "K"], some [.n 4, .n 5], 7, [.U, .C], true⟩, [.one "K", .one "M"], by decide⟩
+
+/-- **swap**, what holds today: ids exchanged, default and mutability kept, every rank keeps its
+    own format (looked up by id); the shape only when the operand's was not authoritative. -/
+theorem swap_meta_partial (m : Meta) (k : Nat) (eb : Bool) (hwf : m.wfB = true) (hshape : m.shape = none) :
+    mSwap k eb none m = sSwap k m := by
+  obtain ⟨hl, _, hn⟩ := (metaWfB_iff m).1 hwf
+  unfold mSwap sSwap
+  by_cases hk : k + 1 < m.ids.length
+  · simp only [hk, if_true, Option.some.injEq, Meta.mk.injEq, true_and, and_true, hshape, Option.map_none]
+    refine ⟨by cases eb <;> rfl, ?_⟩
+    rw [map_swapAt]
+    unfold Meta.getFmt
+    rw [map_lookD_self Fmt.C m.ids m.fmts hn hl]
+  · simp [hk]
+
+example : mSwap 0 false none ⟨[.one "M", .one "K"], none, 7, [.U, .C], true⟩ =
+    some ⟨[.one "K", .one "M"], none, 7, [.C, .U], true⟩ := by decide
+
+/-- … the authoritative shape is dropped ("TBD: Create shape", tensor.py:1545-1547) — DESIGN §7 #10 -/
+theorem swap_meta_defect :
+    ∃ (m : Meta), m.wfB = true ∧ (mSwap 0 false none m).map (·.shape) ≠ (sSwap 0 m).map (·.shape) ∧
+      (mSwap 0 false none m).map (·.fmts) = (sSwap 0 m).map (·.fmts) :=
+  ⟨⟨[.one "M", .one "K"], some [.n 4, .n 5], 7, [.U, .C], true⟩, by decide⟩
+
+/-- **flatten / merge**: the merged id list, the shape entry the coordinate style defines, default
+    and mutability kept; surviving ranks keep their format (looked up by id), the merged rank is "C". -/
+theorem flatten_meta (m : Meta) (style : Style) (k levels : Nat) (hwf : m.wfB = true)
+    (hfresh : RId.many (((m.ids.drop k).take (levels + 1)).flatMap RId.toList) ∉ m.ids) :
+    mFlatten style k levels m = sFlatten style k levels m := by
+  obtain ⟨hl, _, hn⟩ := (metaWfB_iff m).1 hwf
+  have hf : (flatIds k levels m.ids).map m.fmtOrC =
+      m.fmts.take k ++ [Fmt.C] ++ m.fmts.drop (k + levels + 1) := by
+    unfold flatIds
+    simp only [List.map_append, List.map_cons, List.map_nil]
+    have hA : ∀ r ∈ m.ids, m.fmtOrC r = lookD m.ids m.fmts r Fmt.C := by
+      intro r hr; simp [Meta.fmtOrC, hr, Meta.getFmt]
+    rw [List.map_congr_left (fun r hr => hA r (List.mem_of_mem_take hr)),
+        List.map_congr_left (fun r hr => hA r (List.mem_of_mem_drop hr)),
+        map_take_lookD Fmt.C m.ids m.fmts hn hl, map_drop_lookD Fmt.C m.ids m.fmts hn hl]
+    simp [Meta.fmtOrC, hfresh]
+  unfold mFlatten sFlatten
+  simp only [hf]
+
+example : mFlatten .tuple 0 1 ⟨[.one "M", .one "K", .one "N"], some [.n 4, .n 5, .n 6], 7, [.U, .C, .U], true⟩ =
+    some ⟨[.many ["M", "K"], .one "N"], some [.cons (.n 4) (.cons (.n 5) .nil), .n 6], 7, [.C, .U], true⟩ := by
+  decide
+
+/-- **unflatten**, what holds today: for a tensor with leaf default 0 whose shape is authoritative,
+    the inverse re-arrangement of ids and shape, mutability kept, surviving ranks keep their format
+    and the `levels + 1` new ranks are "C". -/
+theorem unflatten_meta_partial (m : Meta) (k l : Nat) (s : List Sx) (ids' : List RId) (hwf : m.wfB = true)
+    (hshape : m.shape = some s) (hd : m.dflt = 0) (hids : unflIds (l + 1) k m.ids = some ids')
+    (hnew : ∀ r ∈ (ids'.drop k).take (l + 2), r ∉ m.ids) :
+    mUnflatten k (l + 1) s m = sUnflatten k (l + 1) m := by
+  obtain ⟨hl, _, hn⟩ := (metaWfB_iff m).1 hwf
+  obtain ⟨news, hnl, he⟩ := unflIds_form l k m.ids ids' hids
+  have hklt : k < m.ids.length := by
+    rw [unflIds] at hids
+    cases hh : m.ids[k]? with
+    | none => rw [hh] at hids; cases hids
+    | some v => exact (List.getElem?_eq_some_iff.1 hh).1
+  have hlen : (m.ids.take k).length = k := by simp; omega
+  have hnews : (ids'.drop k).take (l + 2) = news := by
+    have := drop_take_mid (m.ids.take k) news (m.ids.drop (k + 1))
+    rw [hlen, hnl] at this
+    rw [he]; exact this
+  rw [hnews] at hnew
+  have hf : ids'.map m.fmtOrC = m.fmts.take k ++ List.replicate (l + 1 + 1) Fmt.C ++ m.fmts.drop (k + 1) := by
+    rw [he]
+    simp only [List.map_append]
+    have hA : ∀ r ∈ m.ids, m.fmtOrC r = lookD m.ids m.fmts r Fmt.C := by
+      intro r hr; simp [Meta.fmtOrC, hr, Meta.getFmt]
+    rw [List.map_congr_left (fun r hr => hA r (List.mem_of_mem_take hr)),
+        List.map_congr_left (fun r hr => hA r (List.mem_of_mem_drop hr)),
+        map_take_lookD Fmt.C m.ids m.fmts hn hl, map_drop_lookD Fmt.C m.ids m.fmts hn hl]
+    congr 2
+    rw [← hnl]
+    apply List.ext_getElem
+    · simp
+    · intro i h1 h2
+      have hi : i < news.length := by simpa using h1
+      simp only [List.getElem_map, List.getElem_replicate]
+      have : news[i] ∉ m.ids := hnew _ (List.getElem_mem hi)
+      simp [Meta.fmtOrC, this]
+  unfold mUnflatten sUnflatten
+  rw [hids, hshape]
+  cases hu : unflShape (l + 1) k s with
+  | none => simp [hu]
+  | some s' => simp [hu, hf, hd]
+
+example : mUnflatten 0 1 [.cons (.n 4) (.cons (.n 5) .nil), .n 6]
+    ⟨[.many ["M", "K"], .one "N"], some [.cons (.n 4) (.cons (.n 5) .nil), .n 6], 0, [.C, .U], true⟩ =
+    some ⟨[.one "M", .one "K", .one "N"], some [.n 4, .n 5, .n 6], 0, [.C, .C, .U], true⟩ := by decide
+
+/-- … the leaf default is not carried (no `setDefault` in `unflattenRanks`) — DESIGN §7 #10 -/
+theorem unflatten_meta_defect :
+    ∃ (m : Meta) (s : List Sx), m.wfB = true ∧ m.shape = some s ∧
+      (mUnflatten 0 1 s m).map (·.dflt) ≠ (sUnflatten 0 1 m).map (·.dflt) ∧
+      (mUnflatten 0 1 s m).map (·.ids) = (sUnflatten 0 1 m).map (·.ids) ∧
+      (mUnflatten 0 1 s m).map (·.shape) = (sUnflatten 0 1 m).map (·.shape) :=
+  ⟨⟨[.many ["M", "K"], .one "N"], some [.cons (.n 4) (.cons (.n 5) .nil), .n 6], 7, [.C, .U], true⟩,
+   [.cons (.n 4) (.cons (.n 5) .nil), .n 6], by decide⟩
+
+/-- **unflatten is the inverse of flatten on rank ids**: flattening `levels + 1` atomic ranks at
+    depth `k` and unflattening `levels` times gives the id list back. -/
+theorem unflatten_flatten_ids (ids : List RId) (k l : Nat) (as : List String) (hal : as.length = l + 2)
+    (hatoms : (ids.drop k).take (l + 2) = as.map RId.one) (hk : k + l + 1 < ids.length) :
+    unflIds (l + 1) k (flatIds k (l + 1) ids) = some ids := by
+  unfold flatIds
+  rw [hatoms]
+  have hfm : ∀ (l : List String), (l.map RId.one).flatMap RId.toList = l := by
+    intro l
+    induction l with
+    | nil => rfl
+    | cons a r ih => simp [RId.toList, List.flatMap_cons, ih]
+  rw [hfm as]
+  have hlen : (ids.take k).length = k := by simp; omega
+  have := unflIds_many l (ids.take k) (ids.drop (k + (l + 1) + 1)) as hal
+  rw [hlen] at this
+  rw [this, ← hatoms]
+  congr 1
+  have e : ids.drop (k + (l + 1) + 1) = (ids.drop k).drop (l + 2) := by
+    rw [List.drop_drop]; congr 1
+  rw [e, List.append_assoc, List.take_append_drop, List.take_append_drop]
+
+/-- … and on authoritative shapes, for the coordinate styles `tuple` and `pair` -/
+theorem unflatten_flatten_shape (style : Style) (hst : style = .tuple ∨ style = .pair)
+    (s : List Sx) (k l : Nat) (hk : k + l + 1 < s.length) :
+    (flatShape style k (l + 1) s).bind (unflShape (l + 1) k) = some s := by
+  have hlen : (s.take k).length = k := by simp; omega
+  have hseg : ((s.drop k).take (l + 1 + 1)).length = l + 2 := by simp; omega
+  have e : s.drop (k + (l + 1) + 1) = (s.drop k).drop (l + 2) := by
+    rw [List.drop_drop]; congr 1
+  have fin : s.take k ++ (s.drop k).take (l + 1 + 1) ++ s.drop (k + (l + 1) + 1) = s := by
+    rw [e, List.append_assoc, List.take_append_drop, List.take_append_drop]
+  unfold flatShape
+  rcases hst with rfl | rfl
+  · simp only [flatEntry, Option.map_some, Option.bind_some]
+    have := unflShape_tuple l (s.take k) (s.drop (k + (l + 1) + 1)) _ hseg
+    rw [hlen] at this
+    rw [this, fin]
+  · simp only [flatEntry, Option.map_some, Option.bind_some]
+    have := unflShape_pair l (s.take k) (s.drop (k + (l + 1) + 1)) _ hseg
+    rw [hlen] at this
+    rw [this, fin]
+
+example : unflIds 2 1 (flatIds 1 2 [.one "A", .one "B", .one "C", .one "D"]) =
+    some [.one "A", .one "B", .one "C", .one "D"] := by decide
+example : (flatShape .pair 0 2 [.n 3, .n 4, .n 5]).bind (unflShape 2 0) = some [.n 3, .n 4, .n 5] := by decide
+
+/-- **updateCoords / updatePayloads**: a deep copy — every reported attribute is the operand's -/
+theorem update_meta (m : Meta) : mUpdate m = m := rfl
+
+/-- **constructors**: `fromFiber` (hence `fromUncompressed`, `fromRandom`) reports the given ids,
+    the declared shape as authoritative (none if not declared), the given default, every rank "C",
+    not mutable; `Tensor(...)` / `makePopulated` the same but mutable. -/
+theorem ctor_meta (ids : List RId) (shape : Option (List Sx)) (dflt : Int) :
+    (mFromFiber ids shape dflt).ids = ids ∧ (mFromFiber ids shape dflt).shape = shape ∧
+    (mFromFiber ids shape dflt).dflt = dflt ∧ (∀ f ∈ (mFromFiber ids shape dflt).fmts, f = Fmt.C) ∧
+    (mFromFiber ids shape dflt).fmts.length = ids.length ∧
+    (mFromFiber ids shape dflt).mutable = false ∧
+    mEmpty ids shape dflt = { mFromFiber ids shape dflt with mutable := true } := by
+  refine ⟨rfl, rfl, rfl, ?_, ?_, rfl, rfl⟩
+  · intro f hf
+    simp only [mFromFiber, List.mem_map] at hf
+    obtain ⟨_, _, rfl⟩ := hf; rfl
+  · simp [mFromFiber]
+
+/-! ### every stored coordinate lies inside the reported shape and its fiber's active range -/
+
+/-- fibers of a freshly constructed tensor report `(0, shape)` as their active range, so a shape
+    that covers the data makes the whole invariant true (declared shape: the caller's obligation) -/
+theorem declared_coords_in_shape {ν : Type} (d : Nat) (t : Tree Int ν d) (shape : List Int)
+    (hlen : shape.length = d)
+    (hcover : ∀ i, i < d → ∀ cs ∈ fibersAt d t i, ∀ c ∈ cs, 0 ≤ c ∧ c < shape.getD i 0) :
+    boundsB (shape.map Sx.n) (ctorLevels d t shape) = true := by
+  unfold boundsB
+  rw [Bool.and_eq_true]
+  constructor
+  · simp [ctorLevels, hlen]
+  · unfold ctorLevels
+    rw [show shape.map Sx.n = (List.range d).map (fun i => Sx.n (shape.getD i 0)) from by
+      apply List.ext_getElem
+      · simp [hlen]
+      · intro i h1 h2
+        have : i < shape.length := by simpa using h1
+        simp [List.getD_eq_getElem?_getD, this]]
+    rw [List.zip_map', List.all_map, List.all_eq_true]
+    intro i hi
+    have hid : i < d := List.mem_range.1 hi
+    simp only [Function.comp, List.all_map, List.all_eq_true]
+    intro cs hcs
+    simp only [Function.comp, fiberInShape, fiberInActive, List.all_map, Bool.and_eq_true, List.all_eq_true]
+    refine ⟨fun c hc => ?_, fun c hc => ?_⟩
+    · have h := hcover i hid cs hcs c hc
+      rw [List.getD_eq_getElem?_getD] at h
+      simp [Function.comp, inShape_n, h.1, h.2]
+    · have h := hcover i hid cs hcs c hc
+      rw [List.getD_eq_getElem?_getD] at h
+      simp [Function.comp, inRange_n, h.1, h.2]
+
+/-- **constructor without declared shape**: the shape `Rank.append` estimates (running maximum of
+    last coordinate + 1 over the fibers of each rank) covers every stored coordinate of a tree with
+    ascending, non-negative coordinates; the fibers carry no explicit range, so `getActive()` is
+    `(0, shape)` and covers them too. -/
+theorem est_coords_in_shape {ν : Type} (d : Nat) (t : Tree Int ν d)
+    (hasc : levelsAscB d t = true) (hnn : nonnegB d t = true) :
+    boundsB ((estShape d t).map Sx.n) (ctorLevels d t (estShape d t)) = true := by
+  apply declared_coords_in_shape d t (estShape d t) (by simp [estShape])
+  intro i hid cs hcs c hc
+  have hi : i ∈ List.range d := List.mem_range.2 hid
+  have hS : (estShape d t).getD i 0 = estLevel (fibersAt d t i) := by
+    unfold estShape
+    simp [List.getD_eq_getElem?_getD, hid]
+  have hasc' : ∀ x ∈ fibersAt d t i, x.Pairwise (· < ·) := by
+    intro x hx
+    have := (List.all_eq_true.1 ((List.all_eq_true.1 hasc) i hi)) x hx
+    exact (ascB_iff x).1 this
+  have hnn' : ∀ x ∈ fibersAt d t i, ∀ c ∈ x, 0 ≤ c := by
+    intro x hx c hc
+    have := List.all_eq_true.1 ((List.all_eq_true.1 ((List.all_eq_true.1 hnn) i hi)) x hx) c hc
+    simpa using this
+  rw [hS]
+  exact ⟨hnn' cs hcs c hc, lt_estLevel _ hasc' hnn' cs hcs c hc⟩
+
+def C14.exT : Tree Int Int 2 :=
+  show List (Int × Tree Int Int 1) from
+    [(1, show List (Int × Tree Int Int 0) from [(2, (3 : Int))]), (5, show List (Int × Tree Int Int 0) from [(7, (1 : Int))])]
+example : estShape 2 C14.exT = [6, 8] := by decide
+example : levelsAscB 2 C14.exT = true ∧ nonnegB 2 C14.exT = true := by decide
+example : boundsB [.n 6, .n 8] (ctorLevels 2 C14.exT [6, 8]) = true := est_coords_in_shape 2 C14.exT (by decide) (by decide)
+
+/-- **re-arranging transforms** (swizzle, swap, unflatten; updatePayloads): if every coordinate the
+    result stores at level `j` was stored by the operand at level `g j` and the result's shape entry
+    `j` is the operand's entry `g j`, the operand's "inside the shape" carries over.  The first
+    hypothesis is a fact about the tree algorithms, which this module does not model (C09); the
+    check evaluates the conclusion on every result of the implementation. -/
+theorem rearranged_coords_in_shape_partial (shape shape' : List Sx) (lv lv' : List (List FObs)) (g : Nat → Nat)
+    (hsrc : ∀ i, ∀ f ∈ lv.getD i [], fiberInShape (shape.getD i .nil) f = true)
+    (hsub : ∀ j, ∀ f' ∈ lv'.getD j [], ∀ c ∈ f'.coords, ∃ f ∈ lv.getD (g j) [], c ∈ f.coords)
+    (hshape : ∀ j, shape'.getD j .nil = shape.getD (g j) .nil) :
+    ∀ j, ∀ f' ∈ lv'.getD j [], fiberInShape (shape'.getD j .nil) f' = true := by
+  intro j f' hf'
+  unfold fiberInShape
+  rw [List.all_eq_true]
+  intro c hc
+  obtain ⟨f, hf, hcf⟩ := hsub j f' hf' c hc
+  have := hsrc (g j) f hf
+  unfold fiberInShape at this
+  rw [hshape j]
+  exact List.all_eq_true.1 this c hcf
+
+/-- the hypotheses are satisfiable: a 2-rank tensor with its ranks exchanged -/
+example : ∀ j, ∀ f' ∈ ([[⟨[.n 3], .n 0, .n 5⟩], [⟨[.n 1], .n 0, .n 4⟩]] : List (List FObs)).getD j [],
+    fiberInShape (([.n 5, .n 4] : List Sx).getD j .nil) f' = true :=
+  rearranged_coords_in_shape_partial [.n 4, .n 5] [.n 5, .n 4]
+    [[⟨[.n 1], .n 0, .n 4⟩], [⟨[.n 3], .n 0, .n 5⟩]] [[⟨[.n 3], .n 0, .n 5⟩], [⟨[.n 1], .n 0, .n 4⟩]]
+    (fun j => if j = 0 then 1 else if j = 1 then 0 else j)
+    (by intro i f hf
+        match i, hf with
+        | 0, hf => simp at hf; subst hf; decide
+        | 1, hf => simp at hf; subst hf; decide
+        | n + 2, hf => simp at hf)
+    (by intro j f' hf' c hc
+        match j, hf' with
+        | 0, hf' =>
+          simp at hf'; subst hf'; simp at hc; subst hc
+          exact ⟨⟨[.n 3], .n 0, .n 5⟩, by simp, by simp⟩
+        | 1, hf' =>
+          simp at hf'; subst hf'; simp at hc; subst hc
+          exact ⟨⟨[.n 1], .n 0, .n 4⟩, by simp, by simp⟩
+        | n + 2, hf' => simp at hf')
+    (by intro j
+        match j with
+        | 0 => rfl
+        | 1 => rfl
+        | n + 2 => simp)
+
+/-- **flatten** (styles tuple / pair, one level): the merged coordinates `(c1, c0)` lie componentwise
+    inside the shape `(S1, S0)` and lexicographically inside the active range the code builds,
+    `((lo1, min lo0), (hi1, max hi0))`, whenever each operand fiber's coordinates lie inside its own
+    range and shape. -/
+theorem flatten_coords_in_bounds_partial {π : Type} (f : Fib Int (AF π)) (lo1 hi1 S1 S0 rs re : Int)
+    (hrs : childLo f = some rs) (hre : childHi f = some re)
+    (hup : ∀ e ∈ f, lo1 ≤ e.1 ∧ e.1 < hi1 ∧ 0 ≤ e.1 ∧ e.1 < S1)
+    (hlow : ∀ e ∈ f, ∀ x ∈ e.2.elems, e.2.lo ≤ x.1 ∧ x.1 < e.2.hi ∧ 0 ≤ x.1 ∧ x.1 < S0) :
+    ∀ y ∈ flat2 f, lexLe (lo1, rs) y.1 = true ∧ lexLt y.1 (hi1, re) = true ∧
+      (0 ≤ y.1.1 ∧ y.1.1 < S1) ∧ (0 ≤ y.1.2 ∧ y.1.2 < S0) := by
+  intro y hy
+  unfold flat2 at hy
+  rw [List.mem_flatMap] at hy
+  obtain ⟨e, he, hy⟩ := hy
+  rw [List.mem_map] at hy
+  obtain ⟨x, hx, rfl⟩ := hy
+  have u := hup e he
+  have l := hlow e he x hx
+  have a := childLo_le f rs hrs e he
+  have b := le_childHi f re hre e he
+  simp only [lexLe, lexLt, Bool.or_eq_true, Bool.and_eq_true, decide_eq_true_eq]
+  refine ⟨?_, ?_, ⟨u.2.2.1, u.2.2.2⟩, ⟨l.2.2.1, l.2.2.2⟩⟩
+  · by_cases h : lo1 < e.1
+    · exact Or.inl h
+    · exact Or.inr ⟨by omega, by omega⟩
+  · exact Or.inl u.2.1
+
+example : (flat2 [((0 : Int), (⟨[((3 : Int), (1 : Int)), (4, 2)], 0, 5⟩ : AF Int)), (1, ⟨[(4, 3)], 0, 5⟩)]).map (·.1) =
+    [(0, 3), (0, 4), (1, 4)] := by decide
+
+/-- **split** (uniform, no halo, absolute coordinates; `uSpec` is what C08's `uniform_spec` proves the
+    modelled splitter loop to compute) of a fiber whose range is `(0, S)`: every
+    partition coordinate lies inside `[0, S)` (the duplicated shape entry and the upper fiber's
+    range), every lower coordinate inside its partition's clipped range, which lies inside `[0, S)`. -/
+theorem split_coords_in_bounds_partial {π : Type} (step S : Int) (elems : Fib Int π) (hstep : 0 < step) (hS : 0 < S)
+    (p : Part π) (hp : p ∈ uSpec step 0 0 0 S false elems) :
+    (0 ≤ p.start ∧ p.start < S) ∧ (0 ≤ p.lo ∧ p.hi ≤ S) ∧ ∀ e ∈ p.elems, p.lo ≤ e.1 ∧ e.1 < p.hi := by
+  obtain ⟨P, hP, _, rfl⟩ := (mem_uSpec step 0 0 0 S false elems p).1 hp
+  obtain ⟨⟨q, rfl⟩, h2, h3⟩ := (mem_uCands step 0 S hstep P).1 hP
+  have hq : 0 ≤ q := by
+    apply Int.le_of_lt_add_one
+    apply Int.lt_of_not_ge
+    intro hle
+    have : step * (q + 1) ≤ step * 0 := Int.mul_le_mul_of_nonneg_left hle (Int.le_of_lt hstep)
+    rw [Int.mul_add, Int.mul_one, Int.mul_zero] at this
+    omega
+  have hP0 : 0 ≤ step * q := Int.mul_nonneg (Int.le_of_lt hstep) hq
+  refine ⟨⟨hP0, h3⟩, ?_, ?_⟩
+  · show 0 ≤ max (step * q) 0 ∧ min (step * q + step) S ≤ S
+    omega
+  · intro e he
+    have he' : e ∈ elems.filter (fun e => uMemb step 0 0 0 S (step * q) e.1) := he
+    rw [List.mem_filter] at he'
+    have := he'.2
+    simp only [uMemb, inWindow, Bool.and_eq_true, decide_eq_true_eq] at this
+    show max (step * q) 0 ≤ e.1 ∧ e.1 < min (step * q + step) S
+    omega
+
+example : (uSpec 2 0 0 0 4 false [((1 : Int), (10 : Int)), (3, 30)]).map (fun p => (p.start, p.lo, p.hi)) =
+    [(0, 0, 2), (2, 2, 4)] := by decide
+
+/-- … **so active-range iteration equals occupancy iteration**: on an ascending fiber whose
+    coordinates all lie inside `[lo, hi)`, `iterActive` presents exactly what is stored. -/
+theorem active_iter_eq_occupancy {π : Type} (lo hi : Int) (elems : Fib Int π) (hs : Sorted elems)
+    (hin : ∀ e ∈ elems, lo ≤ e.1 ∧ e.1 < hi) : iterActive lo hi elems = elems := by
+  rw [iterActive_eq_filter lo hi elems hs, List.filter_eq_self]
+  intro e he
+  have := hin e he
+  simp [this.1, this.2]
+
+example : iterActive 0 5 [((1 : Int), (10 : Int)), (3, 30)] = [(1, 10), (3, 30)] := by decide
+/-- (and a coordinate outside the range is what makes them differ: the `relativeCoords` finding) -/
+example : iterActive 2 4 [((1 : Int), (10 : Int))] = [] := by decide
+
+/-! ### lazily produced fibers -/
+
+/-- **lazy results, active range**: every operator gives its result the range the operation defines
+    — the first operand's for `& | ^ -`, `prune`, `intersection`, `union`, `coiterActiveShape`; the
+    source's for populate; the requested one for `coiterRangeShape` / projection with an interval;
+    the transformed range for a projection. -/
+theorem lazy_active (op : LazyOp) (a b : FAttr) :
+    (lazyAttrs op a b).lo = (lazySpec op a b).lo ∧ (lazyAttrs op a b).hi = (lazySpec op a b).hi := by
+  cases op <;> exact ⟨rfl, rfl⟩
+
+/-- **lazy results, rank id**, what holds today: the first operand's id (the destination's for
+    populate), except for a projection that does not name its target rank. -/
+theorem lazy_attrs_partial (op : LazyOp) (a b : FAttr)
+    (h : ∀ k m iv, op ≠ .project k m iv none) : lazyAttrs op a b = lazySpec op a b := by
+  cases op with
+  | project k m iv rid =>
+    cases rid with
+    | none => exact absurd rfl (h k m iv)
+    | some r => rfl
+  | _ => rfl
+
+example : lazyAttrs .populate ⟨"Z", 0, 0⟩ ⟨"B", 0, 9⟩ = ⟨"Z", 0, 9⟩ := by decide
+example : lazyAttrs (.project (-1) 20 none (some "Q")) ⟨"A", 1, 5⟩ ⟨"B", 0, 9⟩ = ⟨"Q", 16, 20⟩ := by decide
+
+/-- … `project` sets the id only `if rank_id is not None` (fiber.py:1335-1336) -/
+theorem lazy_project_id_defect :
+    ∃ a b : FAttr, (lazyAttrs (.project 1 0 none none) a b).id ≠ (lazySpec (.project 1 0 none none) a b).id :=
+  ⟨⟨"A", 1, 5⟩, ⟨"B", 0, 9⟩, by decide⟩
+
+/-- **projection**: for every affine `trans_fn` (increasing, decreasing or constant) the transformed
+    range `(min(f lo, f (hi-1)), max(…) + 1)` contains the image of every coordinate of `[lo, hi)`. -/
+theorem project_active_contains (k m lo hi c : Int) (h1 : lo ≤ c) (h2 : c < hi) :
+    (projRange k m lo hi).1 ≤ affine k m c ∧ affine k m c < (projRange k m lo hi).2 := by
+  unfold projRange affine
+  simp only
+  by_cases hk : 0 ≤ k
+  · have a := Int.mul_le_mul_of_nonneg_left h1 hk
+    have b := Int.mul_le_mul_of_nonneg_left (show c ≤ hi - 1 by omega) hk
+    omega
+  · have hk' : k ≤ 0 := by omega
+    have a := Int.mul_le_mul_of_nonpos_left hk' h1
+    have b := Int.mul_le_mul_of_nonpos_left hk' (show c ≤ hi - 1 by omega)
+    omega
+
+example : projRange (-2) 9 1 4 = (3, 8) := by decide
+
+/-- **intersection and difference** deliver only coordinates of the first operand, so they lie inside
+    the range the result inherits from it. -/
+theorem lazy_coords_inside {α β : Type} (a : Fib Int α) (b : Fib Int β) (lo hi : Int)
+    (ha : ∀ e ∈ a, lo ≤ e.1 ∧ e.1 < hi) :
+    (∀ x ∈ andMerge a b, lo ≤ x.1 ∧ x.1 < hi) ∧ (∀ x ∈ subMerge a b, lo ≤ x.1 ∧ x.1 < hi) := by
+  constructor
+  · intro x hx
+    obtain ⟨e, he, h⟩ := andMerge_coord_mem a b x hx
+    rw [← h]; exact ha e he
+  · intro x hx
+    exact ha x (subMerge_mem a b x hx)
+
+example := lazy_coords_inside [((1 : Int), (1 : Int)), (3, 2)] [((3 : Int), (7 : Int)), (8, 9)] 1 5 (by decide)
+
+/-! ### an unowned fiber joins a tensor -/
+
+/-- **attributes on join**: once owned, the fiber answers with its rank's id, shape, default and
+    format (its own are no longer consulted); a rank with a declared shape keeps it when a fiber
+    without own shape joins; a rank that estimates ends up with a shape covering the new fiber. -/
+theorem attrs_on_join (r : RankAttrs) (own : OwnAttrs) (est : Int) :
+    joined r own = ⟨r.id, r.shape, r.dflt, r.fmt⟩ ∧
+    (r.estimated = false → joinShape r none est = r) ∧
+    (r.estimated = true → 0 < est → (∀ s, r.shape = some s → 0 ≤ s) →
+      ∃ s, (joinShape r none est).shape = some s ∧ est ≤ s) := by
+  refine ⟨rfl, ?_, ?_⟩
+  · intro h
+    simp [joinShape, h]
+  · intro h hpos hs
+    have hne : est ≠ 0 := by omega
+    cases hsh : r.shape with
+    | none => exact ⟨est, by simp [joinShape, h, hsh, hne], Int.le_refl _⟩
+    | some o => exact ⟨max o est, by simp [joinShape, h, hsh, hne], by omega⟩
+
+example : joinShape ⟨"M", none, true, 0, .C⟩ (some 9) 3 = ⟨"M", some 9, false, 0, .C⟩ := by decide
+example : joinShape ⟨"M", some 6, false, 0, .C⟩ (some 9) 3 = ⟨"M", some 9, false, 0, .C⟩ := by decide
+
+end Ft
